@@ -69,7 +69,7 @@ class Worker:
         line, self.buf = self.buf.split(b"\n", 1)
         return line
 
-    def stderr_tail(self, n=6000):
+    def stderr_tail(self, n=200000):
         try:
             self.errf.seek(0)
             data = self.errf.read()
@@ -302,9 +302,26 @@ def classify_crash(r):
 def asan_site(err):
     """First library frame of a sanitizer report (file:line), for keying."""
     import re
+    p = err.find("ERROR: AddressSanitizer")
+    if p < 0:
+        p = err.find("runtime error:")
+    if p > 0:
+        err = err[p:]
     for line in err.split("\n"):
         m = re.search(r"(/repo/(?:src|include)/[^\s:]+:\d+)", line)
         if m:
             return m.group(1).replace("/repo/", "")
     m = re.search(r"runtime error: ([^\n]+)", err)
     return m.group(1)[:80] if m else "unknown"
+
+
+def crash_summary(r, n=400):
+    """One-line summary of why a worker died."""
+    err = r.get("stderr", "") or ""
+    lines = []
+    for l in err.split("\n"):
+        if "ERROR:" in l or "runtime error" in l or "DEADLOCK" in l or "SUMMARY" in l:
+            lines.append(l.strip())
+    if not lines:
+        lines = [l.strip() for l in err.strip().split("\n")[-3:]]
+    return (" | ".join(lines))[:n]
